@@ -32,6 +32,9 @@ CHECKS = {
  "C04": dict(technique="TLA+ P-spec Atomics over limb words (Words.tla) with one indivisible Lin step per operation; TLC checks all interleavings on a tiny word and rejects load/store-split variants; sequential boundary-operand scripts and concurrent mixes on the c11, sync and sim builds validated for linearizability by TLC (AtomicsLin)",
              text="Every recorded operation (operands, returned old value / boolean) must be explained by some sequential order of indivisible operations computing exactly the wrapping C expression on a 32-bit / pointer-width word; operand classes cover sign and wrap-around boundaries for every operation; tickets, per-thread bits and count-downs make lost updates visible.",
              design_ref="3 C04", note="Trusted: " + TB + "; barrier strength beyond x86-64 TSO is not observable."),
+ "C05": dict(technique="TLA+ P-spec UThread (phase, user refs, thread's own ref, freed, exit code, per-thread TLS, due-to-destroy set) model-checked by TLC; gated thread scenarios on the real library with the handle block tracked through the user allocator table; histories validated by TLC (UThreadTrace)",
+             text="Scripts force the orders that matter (creator unrefs before the thread starts, thread finished before join, join racing with exit, extra ref/unref pairs, join of detached threads); every create/start/write/exit/ref/unref/join/free/TLS event is validated: the handle block is freed exactly once and only with no reference left, join returns after the exit event with the right code and the thread's write visible, each notifier call consumes a value that was due (replaced or left at exit) and nothing due remains at the end of a scenario.",
+             design_ref="3 C05", note="Trusted: " + TB + "; allocator-table tracking of the handle block; 10 s watchdogs only delay the Epoch event (a missing release then shows as a rejected Epoch)."),
 }
 NA = {
  "C17": "pure encode/decode fidelity against the platform's inet_pton/inet_ntop over all addresses: no state, transitions or histories for a TLA+ specification to constrain (DESIGN.md section 5)",
